@@ -16,6 +16,8 @@ class EngineBase:
         self.obligations = []
         self.erased = []
         self.assumed_calls = []         # dependency contracts used
+        self.used_contracts = []        # contracts of in-tree callees / spawned generators this verification relies on
+        self.vacuous = []               # paths whose hypotheses became contradictory
         self.st = None
         self.fn_stack = []
         self.guards = []                # extra hypotheses while evaluating guarded sub-expressions
@@ -61,6 +63,25 @@ class EngineBase:
         r = s.check()
         return r != z3.unsat
 
+    def infeasible_report(self, cond):
+        """the hypotheses became contradictory since the last feasible decision (an assumed callee post-condition or theory fact
+        contradicts the state): remember where, the driver reports the path as vacuous (never as a pass)"""
+        import os
+        core = []
+        if os.environ.get('PYVC_DEBUG_INFEASIBLE'):
+            s = z3.Solver()
+            s.set('timeout', 5000)
+            s.set(unsat_core=True)
+            hs = [h for h in self.hyps() if not self.has_quant(h)]
+            for i, h in enumerate(hs):
+                s.assert_and_track(h, f'h{i}')
+            if s.check() == z3.unsat:
+                core = [str(hs[int(str(x)[1:])])[:400] for x in s.unsat_core()]
+            print('INFEASIBLE at', self.site(getattr(self, 'cur_node', None)) if hasattr(self, 'site') else '?', 'cond', str(cond)[:200])
+            for x in core:
+                print('   core:', x)
+        self.vacuous = getattr(self, 'vacuous', []) + [str(cond)[:120]]
+
     def branch(self, cond):
         """branch on a z3 Bool (or python bool); returns python bool and extends the path condition"""
         if isinstance(cond, bool):
@@ -76,7 +97,11 @@ class EngineBase:
             d = True if self.feasible(cond) else False
             self.st.assume(cond if d else z3.Not(cond))
             return d
-        d = self.oracle.decide(lambda: self.feasible(cond), lambda: self.feasible(z3.Not(cond)))
+        try:
+            d = self.oracle.decide(lambda: self.feasible(cond), lambda: self.feasible(z3.Not(cond)))
+        except PathEnd:
+            self.infeasible_report(cond)
+            raise
         self.st.assume(cond if d else z3.Not(cond))
         return d
 
